@@ -92,6 +92,8 @@ func serve(sec string) {
 	s := startServer(opts...)
 	// a few nodes with large reference lists already exist in namespace 0; add one writable variable
 	s.ns.AddNode(server.NewNode(ua.NewStringNodeID(s.ns.ID(), "canary"), nil, nil, func() *ua.DataValue { return server.DataValueFromValue(int32(7)) }))
+	big := strings.Repeat("0123456789abcdef", 3072) // 48 KiB
+	s.ns.AddNode(server.NewNode(ua.NewStringNodeID(s.ns.ID(), "big"), nil, nil, func() *ua.DataValue { return server.DataValueFromValue(big) }))
 	var port int
 	fmt.Sscanf(s.url, "opc.tcp://localhost:%d", &port)
 	emit(map[string]any{"port": port})
@@ -598,10 +600,15 @@ func flood(s *rawSess, stop chan struct{}, sent *int) {
 // block: clients that send requests and never read the answers, and the canary's latency meanwhile.
 // Scenario "flood": one such client. Scenario "subscription": the stalled client also owns a subscription with a monitored
 // item on the canary node and queued publish requests, and the canary changes that node 150 times.
+// Scenario "multichunk": the stalled client asked for one response of many chunks (12 MiB), far more than the socket
+// buffers take, so the write blocks on a chunk after the first.
 func block() {
-	for _, scenario := range []string{"flood", "subscription"} {
-		blockScenario(scenario)
+	var wg sync.WaitGroup
+	for _, scenario := range []string{"flood", "subscription", "multichunk"} {
+		wg.Add(1)
+		go func(sc string) { defer wg.Done(); blockScenario(sc) }(scenario)
 	}
+	wg.Wait()
 }
 
 func blockScenario(scenario string) {
@@ -666,12 +673,24 @@ func blockScenario(scenario string) {
 	}
 	stop := make(chan struct{})
 	sent := 0
-	go flood(s, stop, &sent)
+	if scenario == "multichunk" {
+		q := &ua.ReadRequest{TimestampsToReturn: ua.TimestampsToReturnNeither}
+		for i := 0; i < 250; i++ {
+			q.NodesToRead = append(q.NodesToRead, &ua.ReadValueID{NodeID: ua.NewStringNodeID(1, "big"), AttributeID: ua.AttributeIDValue, DataEncoding: &ua.QualifiedName{}})
+		}
+		if err := s.send(q); err != nil {
+			fail("multichunk read", err)
+			return
+		}
+		sent = 1
+	} else {
+		go flood(s, stop, &sent)
+	}
 	worst, answered, unanswered := time.Duration(0), 0, 0
 	// a request may wait for one write deadline per stalled client, plus slack for the handlers
-	bound := responseDeadline + 2*time.Second
+	bound := responseDeadline + 5*time.Second // slack for handler time on a loaded machine
 	t0 := time.Now()
-	for i := 0; time.Since(t0) < 9*time.Second; i++ {
+	for i := 0; time.Since(t0) < 12*time.Second; i++ {
 		var lat time.Duration
 		var err error
 		if scenario == "subscription" && i < 150 {
